@@ -97,6 +97,21 @@ DeriveSound(sh, u, l, rq, guarded) ==
 \* the classes of requests on which the unrepaired code is known to be unsound
 KnownUnsound(l, rq) == rq.cont # "T" \/ Want(l, rq).out = "ptr"
 
+(* ------------------------------------------------------------------ Reflector: the dynamic type of the container argument *)
+\* classes of things a caller can hand to Putt / Gett of a Reflector derived for container type T:
+\*   own         *T                         nil-own     (*T)(nil)
+\*   twin        *T' , T' another struct type with the same field sequence (same names, same types)
+\*   twin-tags   the same with different struct tags          defined   *X with `type X T`
+\*   ptr-ptr     **T        value  T        nil  the nil interface        other  *U, U an unrelated struct
+\*   unsafe      unsafe.Pointer(&t)         uintptr           first-field  pointer to T's first bytes as *[1]byte
+ForeignClasses == {"own", "nil-own", "twin", "twin-tags", "defined", "ptr-ptr", "value", "nil", "other", "unsafe", "uintptr", "first-field"}
+\* I: Putt / Gett as coded - `case *S:` (a nil *S is a *S), everything else panics before touching memory
+PuttAsCoded(class) == IF class \in {"own", "nil-own"} THEN "put" ELSE "panic"
+\* P (C02): "a Reflector given anything but a pointer to its own container type panics and modifies nothing".
+\* A nil *T is a pointer of its own container type: nothing is demanded of it.
+ForeignWant(class) == CASE class = "own" -> "put" [] class = "nil-own" -> "any" [] OTHER -> "panic"
+ReflectorSound == \A c \in ForeignClasses : ForeignWant(c) = "panic" => PuttAsCoded(c) = "panic"
+
 (* ------------------------------------------------------------------ the requests TLC lists for a shape *)
 OtherType(t) == CASE t = "int8" -> "bool" [] t = "bool" -> "int8" [] t = "int16" -> "uint16" [] t = "uint16" -> "int16"
                   [] t = "int64" -> "float64" [] t = "float64" -> "int64" [] t = "*int" -> "int64" [] t = "string" -> "any"
